@@ -69,6 +69,11 @@ REQUIRE = {
         "eval:apply_target_encoding:dec-glyph": 5_000,
         "eval:apply_target_encoding:bytes-shift": 300,
         "eval:str-bytes-agree": 80_000,
+        "enc-history:transitions:set->set": 841,
+        "enc-history:transitions:temporary-block": 841,
+        "enc-history:transitions:raw-mode-then-reselect": 87,
+        "enc-history:state-checks": 4_000,
+        "enc-history:judged-texts": 10_000,
         "reach:str_util.calc_width": 100,
         "reach:str_util.calc_text_pos": 100,
         "reach:str_util.within_double_byte": 100,
@@ -105,6 +110,11 @@ REQUIRE = {
         "eval:apply_target_encoding:dec-glyph": 20_000,
         "eval:apply_target_encoding:bytes-shift": 300,
         "eval:str-bytes-agree": 1_000_000,
+        "enc-history:transitions:set->set": 841,
+        "enc-history:transitions:temporary-block": 841,
+        "enc-history:transitions:raw-mode-then-reselect": 87,
+        "enc-history:state-checks": 4_000,
+        "enc-history:judged-texts": 10_000,
         "reach:str_util.calc_width": 100,
         "reach:str_util.calc_text_pos": 100,
         "reach:str_util.within_double_byte": 100,
@@ -861,6 +871,218 @@ def dec_texts():
             yield g1 + g2
 
 
+# ------------------------------------------------------------------ encoding histories
+# The active encoding is process-global state reached through set_encoding / set_temporary_encoding calls.  Model:
+# after any history the arithmetic, get_encoding_mode() and get_encoding() are those of the LAST requested name alone
+# (class by name, independent of the path): mode = W.mode_of_encoding(name); target = name.lower() if Python has such
+# a codec else "ascii".  Leaving `with set_temporary_encoding(x)` is a request for the name get_encoding() returned on
+# entry (the only thing the API lets a caller save).  A direct str_util.set_byte_encoding(m) is a request for mode m
+# that the next set_encoding(name) must override.
+
+HIST_NAMES = [
+    "utf-8", "utf8", "utf", "UTF-8",
+    "euc-jp", "euc-kr", "euc-cn", "euc-tw", "gb2312", "gbk", "big5", "cn-gb", "uhc", "eucjp", "euckr", "euccn", "euctw", "cncb", "GBK",
+    "ascii", "iso8859-1", "iso-8859-15", "latin-1", "koi8-r", "cp437", "cp1252", "ISO-8859-1",
+    "x-unknown", "",
+]  # fmt: skip
+HIST_PROBES = {
+    # well-formed in the expected mode (no lone lead bytes: those are known findings), and misread in every other mode
+    "narrow": [b"caf\xe9\xe8\xe9 \xfc\xfc", b"\xa4\xa2a\x81", "a\u2500\u6f22"],
+    "wide": [b"a\xa4\xa2\xa4\xa2b", b"\x81\x40\xa4\xa2c", "a\u2500\u6f22"],
+    "utf8": ["a\u6f22\u0301\u2500".encode(), b"\xc3\xa9\xe6\xbc\xa2z", "a\u2500\u6f22"],
+}
+
+
+def name_class(name: str) -> str:
+    low = name.lower()
+    mode = W.mode_of_encoding(low)
+    if low == "":
+        return "empty-name"
+    if low == "ascii":
+        return "ascii"
+    has = codec_of(low) == low
+    if mode == "utf8":
+        return "utf8"
+    if mode == "wide":
+        return "wide-codec" if has else "wide-nocodec"
+    return "narrow-codec" if has else "unknown-name"
+
+
+def model_target(name: str) -> str:
+    low = name.lower()
+    return low if low and codec_of(low) == low else "ascii"
+
+
+class Baseline:
+    """put the three encoding globals into the state a fresh set_encoding('utf-8') produces (assigned directly so that the
+    starting point of a history does not depend on set_encoding itself); restore what was there on exit"""
+
+    def __init__(self, api):
+        self.api = api
+
+    def __enter__(self):
+        S, U = self.api.S, self.api.U
+        self.saved = (U._target_encoding, U._use_dec_special, S._byte_encoding)
+        U._target_encoding, U._use_dec_special, S._byte_encoding = "utf-8", False, "utf8"
+        return self
+
+    def __exit__(self, *exc):
+        S, U = self.api.S, self.api.U
+        U._target_encoding, U._use_dec_special, S._byte_encoding = self.saved
+        return False
+
+
+_FRESH: dict = {}
+
+
+def fresh_keys(api, name, mode, text):
+    """(function, kind) mismatches of a probe text right after ONE set_encoding(name) from the utf-8 baseline"""
+    key = (name.lower(), text)
+    if key not in _FRESH:
+        with Baseline(api):
+            api.U.set_encoding(name)
+            _FRESH[key] = frozenset((f, kd) for f, kd, _m, _c in judge_text(api, name.lower(), mode, text, Counter(), lean=True))
+    return _FRESH[key]
+
+
+def run_history(ctx, api, ops, stats, judge_every=True):
+    """execute ops from the utf-8 baseline; after every request compare mode / target / arithmetic with the model of the
+    last requested name.  ops: ["set", name] | ["temp", name] (a with-block, judged inside and after) | ["raw", mode].
+    Returns the number of mismatches reported."""
+    S, U = api.S, api.U
+    bad = 0
+
+    def check(step, opname, prev_name, name, raw_mode=None):
+        nonlocal bad
+        exp_mode = raw_mode or W.mode_of_encoding(name)
+        trans = f"{name_class(prev_name)}->{name_class(name)}" if raw_mode is None else f"{name_class(prev_name)}->raw-{raw_mode}"
+        wit = {"kind": "history", "ops": ops, "step": step}
+        got_mode = S.get_byte_encoding()
+        stats["enc-history:state-checks"] += 1
+        if got_mode != exp_mode or U.get_encoding_mode() != exp_mode:
+            bad += 1
+            ctx.violation(
+                f"C11|encoding-history|{opname}|{trans}|byte-mode|got-{got_mode}-model-{exp_mode}",
+                f"after {ops[: step + 1]!r} from a utf-8 baseline get_encoding_mode() = {got_mode!r}; the last requested encoding {name!r} is {exp_mode!r}",
+                wit,
+            )
+        if raw_mode is not None:
+            return
+        exp_target = model_target(name)
+        if U.get_encoding() != exp_target:
+            bad += 1
+            ctx.violation(
+                f"C11|encoding-history|{opname}|{trans}|get_encoding|got-{name_class(U.get_encoding())}-model-{name_class(exp_target)}",
+                f"after {ops[: step + 1]!r} from a utf-8 baseline get_encoding() = {U.get_encoding()!r}, model {exp_target!r}",
+                wit,
+            )
+        if not judge_every and step != len(ops) - 1:
+            return
+        seen = set()
+        for text in HIST_PROBES[exp_mode]:
+            stats["enc-history:judged-texts"] += 1
+            found = judge_text(api, name.lower(), exp_mode, text, stats, lean=True)
+            if found:  # only what the PATH adds: a mismatch that a single set_encoding(name) from the baseline shows too is
+                # an arithmetic defect of that encoding and is reported by the other phases under its own signature
+                found = [x for x in found if (x[0], x[1]) not in fresh_keys(api, name, exp_mode, text)]
+            for f, kd, msg, call in found:
+                if (f, kd) in seen or len(seen) >= 2:  # one broken state shows up in every function: two examples are enough
+                    continue
+                seen.add((f, kd))
+                bad += 1
+                ctx.violation(
+                    f"C11|encoding-history|{opname}|{trans}|{f}|{kd}",
+                    f"after {ops[: step + 1]!r} from a utf-8 baseline (last requested {name!r}, class {exp_mode}): {msg}",
+                    {**wit, "text": text, "call": call},
+                )
+
+    with Baseline(api):
+        cur = "utf-8"  # the name whose class the state must have now
+        for step, op in enumerate(ops):
+            kind, arg = op
+            try:
+                if kind == "set":
+                    U.set_encoding(arg)
+                    check(step, "set_encoding", cur, arg)
+                    cur = arg
+                elif kind == "raw":
+                    S.set_byte_encoding(arg)
+                    check(step, "set_byte_encoding", cur, cur, raw_mode=arg)
+                    # target and DEC flag still belong to `cur`; only a following set_encoding is judged for arithmetic
+                elif kind == "temp":
+                    entry_target = U.get_encoding()
+                    with U.set_temporary_encoding(arg):
+                        check(step, "set_temporary_encoding-enter", cur, arg)
+                    check(step, "set_temporary_encoding-exit", arg, entry_target)
+                    cur = entry_target
+                else:
+                    raise AssertionError(op)
+            except Exception as e:  # noqa: BLE001
+                bad += 1
+                ctx.violation(f"C11|encoding-history|{kind}|raise:{type(e).__name__}", f"{ops[: step + 1]!r}: {type(e).__name__}: {e}", {"kind": "history", "ops": ops, "step": step})
+                break
+    return bad
+
+
+def encoding_histories(ctx, api, rng):
+    """every ordered (previous name -> name) transition by set_encoding, every (base, temporary name) with-block, every
+    (name, raw byte mode) re-selection, then random mixed histories.  False if the budget ended first."""
+    stats = Counter()
+    idx = 0
+    ok = True
+    names = HIST_NAMES
+    try:
+        for a in names:
+            for b in names:
+                idx += 1
+                if not ctx.mine(idx):
+                    continue
+                if not det_more(ctx):
+                    return False
+                run_history(ctx, api, [["set", a], ["set", b]], stats)
+                stats["enc-history:transitions:set->set"] += 1
+                ctx.case(("hist", "set", a, b))
+        for a in names:
+            for b in names:
+                idx += 1
+                if not ctx.mine(idx):
+                    continue
+                if not det_more(ctx):
+                    return False
+                run_history(ctx, api, [["set", a], ["temp", b]], stats)
+                stats["enc-history:transitions:temporary-block"] += 1
+                ctx.case(("hist", "temp", a, b))
+        for a in names:
+            for m in W.MODES:
+                idx += 1
+                if not ctx.mine(idx):
+                    continue
+                run_history(ctx, api, [["set", a], ["raw", m], ["set", a]], stats)
+                stats["enc-history:transitions:raw-mode-then-reselect"] += 1
+                ctx.case(("hist", "raw", a, m))
+        for k in range(ctx.pick(60, 600)):
+            if not det_more(ctx):
+                return False
+            ops = []
+            for _ in range(rng.randint(3, 8)):
+                r = rng.random()
+                if r < 0.65:
+                    ops.append(["set", rng.choice(names)])
+                elif r < 0.9:
+                    ops.append(["temp", rng.choice(names)])
+                else:
+                    ops.append(["raw", rng.choice(W.MODES)])
+            run_history(ctx, api, ops, stats)
+            stats["enc-history:random-histories"] += 1
+            ctx.case(("hist", ops))
+            if k == 0:
+                ctx.sample({"encoding_history": ops})
+    finally:
+        for k, v in stats.items():
+            ctx.count(k, v)
+    return ok
+
+
 def random_cp(rng, edges):
     r = rng.random()
     if r < 0.25:
@@ -940,6 +1162,8 @@ def run(ctx):
             if not run_texts(ctx, ses, dec_texts(), DET_FRAC, "dec-glyphs"):
                 incomplete.append(f"dec-glyphs:{enc}")
             ses.flush()
+    if not encoding_histories(ctx, api, ctx.subrng("histories")):
+        incomplete.append("encoding-histories")
     phase["texts"] = round(time.process_time(), 2)
     ctx.extra["cpu_seconds_at_end_of_phase_shard0"] = phase
     ctx.extra["every_unicode_scalar_value_judged_under_utf8"] = (not ctx.quick) and "code-point-sweep:utf-8" not in incomplete
@@ -1008,6 +1232,12 @@ def replay(ctx, wit):
     warnings.filterwarnings("ignore", category=UnicodeWarning)
     api = Api()
     api.probe_lenient()
+    if wit.get("kind") == "history":
+        stats = Counter()
+        run_history(ctx, api, wit["ops"], stats)
+        for k, v in stats.items():
+            ctx.count(k, v)
+        return
     enc = wit["enc"]
     with Encoding(api, enc):
         if wit.get("kind") == "mode":
